@@ -3,7 +3,7 @@
    Only the property theorems (each closed by [exact]) and Print Assumptions. *)
 From Coq Require Import List NArith Bool String.
 Import ListNotations.
-From SygmaV Require Import Lib.Hex Lib.C02_Keccak Model.C02 Proofs.C02.
+From SygmaV Require Import Lib.Hex Lib.C02_Keccak Model.C02 Proofs.C02 Proofs.C02_Exec.
 Local Open Scope N_scope.
 
 (* For EVERY hash function with 32-byte output, all domains (name, version, chain id < 2^63,
@@ -114,6 +114,32 @@ Theorem C02_session_ok_model :
 Proof. exact session_ok_model. Qed.
 Print Assumptions C02_session_ok_model.
 
+(* ---- a whole call of Execute.  [exec_ok H d ss crashed] is the judge on what was observed of the real
+   Executor.Execute on one delivery: the sessions (each: the batch its session id stands for - position <i>
+   of the real batch list for <messageID>-<i>, empty batches included in the counting -, the value that was
+   signed under it, the batch submitted with the signature) and whether the call crashed.  It accepts iff
+   every session satisfies [session_ok] and the call did not crash (a Go panic while the digests are obtained
+   and handed over leaves batches without the value that was to be signed for them); *)
+Theorem C02_exec_ok_sound :
+  forall H d ss crashed, exec_ok H d ss crashed = true ->
+    crashed = false /\ forall s, In s ss -> session_ok H d s = true.
+Proof. exact exec_ok_sound. Qed.
+Print Assumptions C02_exec_ok_sound.
+
+(* it accepts Execute as modelled - one session per NON-EMPTY batch of the batch list, each with the digest of
+   its own batch, no crash - for every hash function, destination and batch list (empty batches anywhere) *)
+Theorem C02_exec_ok_model :
+  forall H d bs, exec_ok H d (fst (model_exec H d bs)) (snd (model_exec H d bs)) = true.
+Proof. exact exec_ok_model. Qed.
+Print Assumptions C02_exec_ok_model.
+
+(* NOT the code: digests computed up front into a slice that skips the empty batches, looked up with the
+   position in the unfiltered batch list.  Without an empty batch it is the code ... *)
+Theorem C02_filtered_index_no_empty :
+  forall H d bs, forallb nonempty_batch bs = true -> filtered_index_exec H d bs = model_exec H d bs.
+Proof. exact filtered_index_no_empty. Qed.
+Print Assumptions C02_filtered_index_no_empty.
+
 (* ---- the digest is a function of its arguments only, whatever was hashed before or at the same time:
    the judge [multi_ok ds seen] (ds = the model digests of some argument tuples, seen = every answer the
    implementation gave for tuple number i during a history / under concurrent use) accepts iff every
@@ -162,5 +188,22 @@ Example C02_session_nonvacuous :
   session_ok mix d {| s_batch := [q1; q2]; s_signed := D; s_submitted := [q2; q1] |} = false /\
   session_ok mix d {| s_batch := [q1]; s_signed := D; s_submitted := [q1] |} = false /\
   multi_ok [[1]; [2]] [(0%nat, [1]); (1%nat, [2]); (0%nat, [1])] = true /\
-  multi_ok [[1]; [2]] [(0%nat, [1]); (1%nat, [2]); (0%nat, [2])] = false.
+  multi_ok [[1]; [2]] [(0%nat, [1]); (1%nat, [2]); (0%nat, [2])] = false /\
+  (* a delivery whose batch list is [empty; [q1]; [q2]] (q1 alone reaches the gas cap): Execute as modelled
+     is accepted; the up-front slice indexed with the unfiltered position signs [q1] with the digest of [q2]
+     and runs out of range for [q2]: rejected twice over *)
+  exec_ok mix d (fst (model_exec mix d [[]; [q1]; [q2]])) (snd (model_exec mix d [[]; [q1]; [q2]])) = true /\
+  filtered_index_exec mix d [[]; [q1]; [q2]] =
+    ([{| s_batch := [q1]; s_signed := digest mix d [q2]; s_submitted := [q1] |}], true) /\
+  exec_ok mix d (fst (filtered_index_exec mix d [[]; [q1]; [q2]])) false = false /\
+  exec_ok mix d [] true = false.
 Proof. vm_compute. repeat split. Qed.
+
+(* ... with a leading empty batch it signs a batch with the digest of the next one and crashes *)
+Theorem C02_filtered_index_refuted :
+  exists (H : list N -> list N) d bs,
+    (forall x, List.length (H x) = 32%nat) /\
+    exec_ok H d (fst (filtered_index_exec H d bs)) (snd (filtered_index_exec H d bs)) = false /\
+    exec_ok H d (fst (filtered_index_exec H d bs)) false = false.
+Proof. exact filtered_index_refuted. Qed.
+Print Assumptions C02_filtered_index_refuted.
